@@ -128,6 +128,36 @@ for _kind in ('list', 'tuple', 'dictval', 'call', 'callkw'):
                 continue        # the open finding: see commented-dict-values-at-every-level
             FAMILIES['chain-%s-%s-%d' % (_kind, _wrap, _ar)] = (
                 lambda n, k=_kind, w=_wrap, a=_ar: t_chain(n, k, w, a), [5, 10, 20, 40])
+def t_key_then_groups(n, key, tail):
+    """a dict whose KEY is a container / call (a group followed on its line by more document), whose value holds n
+    further small groups and ends in something that cannot fit (every look-ahead that gets that far fails late)"""
+    k = {'tuple': ('tuple', [('int', 1), ('int', 2)]), 'frozenset': ('frozenset', [('int', 1)]),
+         'call': ('call', 'make', [('int', 1)], [])}[key]
+    last = {'int': ('int', 10 ** 90), 'str': ('str', 'x' * 120), 'prose': ('str', 'some words ' * 20)}[tail]
+    return ('dict', [(k, ('list', [('list', [('int', i)]) for i in range(n)] + [last]))])
+
+
+def t_key_chain(n, key, tail):
+    """n nested dicts each with a container key; the innermost value cannot fit"""
+    last = {'int': ('int', 10 ** 90), 'str': ('str', 'x' * 120), 'prose': ('str', 'some words ' * 20)}[tail]
+    t = last
+    for _ in range(n):
+        k = ('tuple', [('int', 0)]) if key == 'tuple' else ('frozenset', [('int', 0)]) if key == 'frozenset' \
+            else ('call', 'make', [('int', 0)], [])
+        t = ('dict', [(k, t)])
+    return t
+
+
+for _key in ('tuple', 'frozenset', 'call'):
+    for _tail in ('int', 'str', 'prose'):
+        FAMILIES['%s-key-then-groups-then-%s' % (_key, _tail)] = (
+            lambda n, k=_key, tl=_tail: t_key_then_groups(n, k, tl), [5, 10, 20, 40])
+        FAMILIES['chain-of-%s-keys-ending-in-%s' % (_key, _tail)] = (
+            lambda n, k=_key, tl=_tail: t_key_chain(n, k, tl), [4, 8, 16, 32])
+FAMILIES['groups-then-overflow'] = (lambda n: ('list', [('list', [('int', i)]) for i in range(n)] + [('int', 10 ** 90)]),
+                                    [5, 10, 20, 40])
+FAMILIES['call-groups-then-overflow'] = (
+    lambda n: ('call', 'make', [('tuple', [('int', i)]) for i in range(n)], [('kw', ('int', 10 ** 90))]), [5, 10, 20, 40])
 CFGS = [dict(), dict(width=20, sort_dict_keys=True), dict(width=200, ribbon_width=200)]
 
 
